@@ -699,6 +699,272 @@ def stage_fs_order(rep, rng):
     return differing
 
 
+# ============================================================================= W correspondence (model vs code)
+WORDS = ['a', 'b', 'c', 'ab', 'ba', '', 'é', 'a b', 'A', 'aa', 'x/y', 'x/z', '日']
+DIRCHARS = ['a', 'b', 'src', 'x y', 'h#', 'p%', 'c:d', 'd$', 'e|f', '~t', 's*', 'q?', '[k]', 'é', 'm n', 'tab\tx',
+            'n\nl', 'bs\\\\', 'v,w', "q'", '=']
+COMPS = ['a', 'b', 'c', '..', '..', '.', '', 'x.y', '...', '..a', 'é', 'a b', 'build', 'src']
+
+
+def dec(name, r):
+    from .common import d_str, d_list, d_opt
+    if name in ('determ.uniques', 'determ.explicit_of', 'determ.find_dirs_of'):
+        return d_list(d_str, r)
+    if name in ('determ.dict_of', 'determ.dict_first_of'):
+        return [(d_str(p[0]), d_str(p[1])) for p in r]
+    if name == 'determ.depfile_text':
+        return d_opt(d_str, r)
+    if name == 'determ.emit':
+        return d_opt(lambda p: ([(d_str(k[0]), d_str(k[1])) for k in p[0]],
+                                [(d_list(d_str, x[0]), d_str(x[1])) for x in p[1]]), r)
+    if name == 'determ.abspath_str':
+        return ('ok', d_str(r[1])) if r[0] == 0 else ('ValueError' if r[0] == 1 else 'outside')
+    if name == 'determ.directory_pair':
+        return (d_str(r[0]), d_str(r[1]))
+    raise KeyError(name)
+
+
+def gen_list(rng, maxn=12):
+    k = rng.randint(1, len(WORDS))
+    pool = rng.sample(WORDS, k)
+    return [rng.choice(pool) for _ in range(rng.choice([0, 1, 2, 2, 3, 4, 6, 9, maxn]))]
+
+
+class _Src:
+    def __init__(self, path, tag):
+        self.path, self.tag = path, tag
+
+
+def gen_ops(rng, allow_empty):
+    names = ['v%d' % i for i in range(4)]
+    tg = ['t%d' % i for i in range(5)] + ['dir/o.o', 'a-b']
+    ops = []
+    for _ in range(rng.randint(0, 9)):
+        k = rng.random()
+        if k < 0.35:
+            ops.append([0, rng.choice(names), rng.choice(['1', 'x y', '']), rng.random() < 0.6])
+        elif k < 0.7:
+            n = rng.choice([0, 1, 1, 1, 2, 3]) if allow_empty else rng.choice([1, 1, 1, 2, 3])
+            ops.append([1, [rng.choice(tg) for _ in range(n)], rng.choice(['cc', 'ld', 'r'])])
+        elif k < 0.9:
+            ops.append([2, rng.choice(tg), [rng.choice(tg) for _ in range(rng.randint(1, 2))], 'cond'])
+        else:
+            ops.append([3, rng.choice(names), rng.choice(names), 'unless'])
+    return ops
+
+
+def run_ops_make(ops):
+    from bfg9000.backends.make.syntax import Makefile, Section
+    mk = Makefile('build.bfg')
+    try:
+        for o in ops:
+            if o[0] == 0:
+                mk.variable(o[1], o[2], exist_ok=o[3])
+            elif o[0] == 1:
+                mk.rule(target=list(o[1]), recipe=o[2])
+            elif o[0] == 2:
+                if not mk.has_rule(o[1]):
+                    mk.rule(target=list(o[2]), recipe=o[3])
+            else:
+                if not mk.has_variable(o[1]):
+                    mk.variable(o[2], o[3])
+    except ValueError:
+        return None
+    # what Makefile.write iterates
+    return ([(n.name, v) for n, v in mk._global_variables[Section.other]], [(list(r.targets), r.recipe) for r in mk._rules])
+
+
+def run_ops_ninja(ops):
+    from bfg9000.backends.ninja.syntax import NinjaFile, Section
+    nf = NinjaFile('build.bfg')
+    nf.rule('cc', ['cc']); nf.rule('ld', ['ld']); nf.rule('r', ['r']); nf.rule('cond', ['c'])   # noqa: E702
+    try:
+        for o in ops:
+            if o[0] == 0:
+                nf.variable(o[1], o[2], exist_ok=o[3])
+            elif o[0] == 1:
+                nf.build(output=list(o[1]), rule=o[2])
+            elif o[0] == 2:
+                if not nf.has_build(o[1]):
+                    nf.build(output=list(o[2]), rule=o[3])
+            else:
+                if not nf.has_variable(o[1]):
+                    nf.variable(o[2], o[3])
+    except ValueError:
+        return None
+    return ([(n.name, v) for n, v in nf._variables[Section.other]], [(list(b.outputs), b.rule) for b in nf._builds])
+
+
+def gen_spelling(rng):
+    n = rng.choice([0, 1, 1, 2, 2, 3, 4, 6])
+    body = '/'.join(rng.choice(COMPS) for _ in range(n))
+    lead = rng.choice(['', '', '', '/', '/', '//', '///', './', '../'])
+    tail = rng.choice(['', '', '/', '/.', '/..'])
+    return lead + body + tail
+
+
+def gen_cwd(rng):
+    names = [c for c in COMPS if c not in ('', '.', '..')]
+    k = rng.random()
+    body = '/'.join(rng.choice(names) for _ in range(rng.choice([0, 1, 2, 2, 3, 4])))
+    if k < 0.9:
+        return '/' + body
+    if k < 0.95:
+        return '//' + body          # POSIX allows getcwd to keep exactly two leading slashes
+    return '/' + body + rng.choice(['/', '/.', '/../x'])     # never returned by getcwd; the model must still agree
+
+
+def real_abspath(cwd, s):
+    from unittest import mock
+    from bfg9000.path import Path
+    with mock.patch('os.getcwd', lambda: cwd), mock.patch('os.path.expanduser', lambda p: p):
+        try:
+            return ('ok', Path.abspath(s, directory=True, absdrive=False).suffix)
+        except ValueError:
+            return 'ValueError'
+
+
+def stage_w(rep, rng, n):
+    from bfg9000 import iterutils
+    from bfg9000.build_inputs import BuildInputs
+    from bfg9000.builtins.install import InstallOutputs
+    from bfg9000.builtins import find as bfind
+    from bfg9000.path import Path, Root
+    from . import gen
+    _, us = gen.uni_tables()
+    us = us + ' '
+    calls, impl = [], []
+    # -- de-duplicators and dicts
+    for _ in range(n):
+        l = gen_list(rng)
+        rep.case('u:' + repr(l), len(set(l)) < len(l))
+        rep.count('uniques:dups' if len(set(l)) < len(l) else 'uniques:nodups')
+        calls.append(('determ.uniques', [l])); impl.append(iterutils.uniques(l))           # noqa: E702
+        io = InstallOutputs(None)
+        io._add_implicit = lambda item, directory: None
+        for x in l:
+            io.add(x)
+        calls.append(('determ.explicit_of', [l])); impl.append(list(io.explicit))          # noqa: E702
+        kv = [(k, 'v%d' % i) for i, k in enumerate(l)]
+        bi = BuildInputs.__new__(BuildInputs)
+        bi._sources = {}
+        for k, v in kv:
+            bi.add_source(_Src(k, v))
+        calls.append(('determ.dict_of', [kv])); impl.append([(k, s.tag) for k, s in bi._sources.items()])   # noqa: E702
+        d = {}
+        for k, v in kv:
+            d.setdefault(k, v)
+        calls.append(('determ.dict_first_of', [kv])); impl.append(list(d.items()))         # noqa: E702
+    # -- Makefile / NinjaFile bookkeeping under three iteration behaviours of the sets
+    for i in range(n):
+        ops = gen_ops(rng, allow_empty=True)
+        want = run_ops_make(ops)
+        rep.case('mk:' + repr(ops), len(ops) > 1)
+        rep.count('emit-make:' + ('error' if want is None else 'ok'))
+        for orc in (0, 1, 2):
+            calls.append(('determ.emit', [orc, ops])); impl.append(want)                   # noqa: E702
+        ops = gen_ops(rng, allow_empty=False)
+        want = run_ops_ninja(ops)
+        rep.count('emit-ninja:' + ('error' if want is None else 'ok'))
+        calls.append(('determ.emit', [i % 3, ops])); impl.append(want)                     # noqa: E702
+    # -- write_depfile (real function, list argument) and the set-as-list model
+    d = common.scratch('c13dep')
+    try:
+        class Env:
+            base_dirs = {Root.srcdir: Path('/S/src/', Root.absolute), Root.builddir: Path(d + '/', Root.absolute)}
+        for i in range(n // 2):
+            dirs = []
+            for _ in range(rng.choice([0, 1, 2, 3, 5])):
+                bits = [rng.choice(DIRCHARS) for _ in range(rng.randint(1, 3))]
+                root = rng.choice([Root.absolute, Root.srcdir, Root.builddir])
+                try:
+                    dirs.append(Path(('/' if root == Root.absolute else '') + '/'.join(bits) + '/', root))
+                except ValueError:
+                    pass
+            target = Path(rng.choice(['Makefile', 'Makefile.stamp', 'build.ninja', 'odd name#']))
+            makeify = rng.random() < 0.6
+            roots = dict(Env.base_dirs)
+            roots[Root.builddir] = None
+            strs = [p.string(roots) for p in dirs]
+            try:
+                bfind.write_depfile(Env, Path('depfile'), target, dirs, makeify=makeify)
+                want = open(os.path.join(d, 'depfile'), encoding='utf-8').read()
+            except ValueError:
+                want = None
+            rep.case('dep:' + repr(strs), len(strs) > 1)
+            rep.count('depfile:' + ('error' if want is None else 'dirs=%d' % min(len(strs), 3)))
+            calls.append(('determ.depfile_text', [us, target.string(roots), strs, makeify])); impl.append(want)   # noqa: E702
+    finally:
+        shutil.rmtree(d, ignore_errors=True)
+    # -- abspath
+    corpus = [('/a/b', 'c'), ('/a/b', '../c'), ('/a/b', '../../../c'), ('/a/b', '/c/./d/..'), ('/a/b', '//c/d/e'),
+              ('/a/b', '//c'), ('/a/b', '//c/d'), ('/a/b', '///c/d/e/f'), ('/', '.'), ('/', '..'), ('/a', ''), ('/a', '.'),
+              ('//a/b/c', 'd'), ('//a/b/c', '..'), ('/a/b', 'x/../../y'), ('/a/b', '//c/d//e'), ('/a/b', '//c/d/..')]
+    for cwd, s in corpus + [(gen_cwd(rng), gen_spelling(rng)) for _ in range(2 * n)]:
+        want = real_abspath(cwd, s)
+        rep.case('abs:%r:%r' % (cwd, s), '..' in s or s.startswith('/'))
+        rep.count('abspath:' + (want if isinstance(want, str) else
+                                'rel' if not s.startswith('/') else 'abs2' if s.startswith('//') else 'abs'))
+        calls.append(('determ.abspath_str', [cwd, s])); impl.append(want)                  # noqa: E702
+    for c in calls[:2] + calls[-2:]:
+        rep.sample({'stage': 'W:determ', 'call': c[0], 'arg': c[1]})
+    # canonicalise: recipe strings of the Makefile come back as given
+    raw_dis = common.compare_model(rep, 'W:determ', calls, impl, dec)
+    dis = [x for x in raw_dis if x[3] != 'outside']
+    rep.count('abspath:outside-fragment', sum(1 for x in raw_dis if x[3] == 'outside'))
+    # -- the set-as-list model has set semantics (language level): same elements, no duplicates, any oracle
+    batches = [[gen_list(rng, 6) for _ in range(rng.randint(0, 4))] for _ in range(n // 4)]
+    sc = [('determ.find_dirs_of', [i % 3, b]) for i, b in enumerate(batches)]
+    for (_, (orc, b)), r in zip(sc, common.model_batch(sc)):
+        got = dec('determ.find_dirs_of', r)
+        s = set()
+        for x in b:
+            s.update(x)
+        if sorted(got) != sorted(s):
+            dis.append((0, ('determ.find_dirs_of', [orc, b]), sorted(s), got))
+    return dis
+
+
+def stage_w_directory_pair(rep, rng, n):
+    """driver.directory_pair (the real argparse action) against the model, with the file system answers stubbed."""
+    from unittest import mock
+    from bfg9000 import driver
+    from bfg9000.path import Path
+    import argparse as _ap
+    calls, impl = [], []
+    DP = driver.directory_pair('srcdir', 'builddir')
+    for _ in range(n):
+        dirs = ['/w/src', '/w/build', '/w/else', '/w/src/sub']
+        cwd, val = rng.choice(dirs), rng.choice(dirs)
+        has = [x for x in dirs if rng.random() < 0.4]
+        with mock.patch('os.getcwd', lambda: cwd), \
+                mock.patch('bfg9000.build.exists', lambda p, *a: p.parent().suffix in has):
+            ns = _ap.Namespace()
+            DP(option_strings=[], dest='d')(None, ns, Path.abspath(val, directory=True, absdrive=False))
+            impl.append((ns.srcdir.suffix, ns.builddir.suffix))
+        calls.append(('determ.directory_pair', [has, cwd, val]))
+        rep.case('dp:%r' % ((has, cwd, val),), cwd != val)
+        rep.count('directory_pair:' + ('value-is-src' if val in has else 'value-is-build'))
+    return common.compare_model(rep, 'W:directory_pair', calls, impl, dec, vm_limit=50)
+
+
+def oracle_direct(rep, rng, n):
+    """The property of the de-duplicators checked directly on the implementation (no model)."""
+    from bfg9000 import iterutils
+    bad = 0
+    for _ in range(n):
+        l = gen_list(rng)
+        u = iterutils.uniques(l)
+        ok = (len(set(u)) == len(u) and set(u) == set(l) and
+              [l.index(x) for x in u] == sorted(l.index(x) for x in u))
+        if not ok:
+            bad += 1
+            rep.fail('iterutils.uniques(%r) = %r is not the first-occurrence de-duplication' % (l, u),
+                     {'list': l, 'uniques': u}, classes=('uniques-order',))
+    rep.stage('oracle:uniques', cases=n, failures=bad)
+    return bad
+
+
 # ============================================================================= driver
 def run(rep):
     rng = random.Random(rep.seed)
